@@ -190,32 +190,7 @@ theorem matchHere_closed (tg x w rest : Str) (htg : tg ≠ []) (htc : ∀ c ∈ 
   simp [startTag, endTag]; omega
 
 
-/-! ### CDATA: greedy `.+` backtracking to the last `]]>` of the line -/
-
-theorem findLastClose_none_iff (l : Str) : findLastClose l = none ↔ containsSub cdataClose l = false := by
-  induction l with
-  | nil => simp [findLastClose, containsSub, cdataClose]
-  | cons c cs ih =>
-    simp only [findLastClose, containsSub]
-    cases h : findLastClose cs with
-    | some i =>
-      have : containsSub cdataClose cs ≠ false := fun e => by rw [ih.mpr e] at h; cases h
-      simp only [Bool.not_eq_false] at this
-      simp [this]
-    | none =>
-      rw [ih.mp h]
-      by_cases hp : cdataClose.isPrefixOf (c :: cs) = true
-      · simp [hp]
-      · simp only [Bool.not_eq_true] at hp; simp [hp]
-
-theorem findLastClose_append (a b : Str) (i : Nat) (h : findLastClose b = some i) :
-    findLastClose (a ++ b) = some (i + a.length) := by
-  induction a with
-  | nil => simpa using h
-  | cons c cs ih => simp only [List.cons_append, findLastClose, ih, List.length_cons]; rfl
-
-theorem findLastClose_close (L : Str) (h : findLastClose L = none) : findLastClose (cdataClose ++ L) = some 0 := by
-  simp [cdataClose, findLastClose, h, List.isPrefixOf]
+/-! ### CDATA: lazy `.+?` up to the first `]]>` of the line -/
 
 theorem takeWhile_append_all (p : Char → Bool) (a b : Str) (ha : ∀ x ∈ a, p x = true) :
     (a ++ b).takeWhile p = a ++ b.takeWhile p := by
@@ -226,33 +201,56 @@ theorem takeWhile_append_all (p : Char → Bool) (a b : Str) (ha : ∀ x ∈ a, 
     simp only [List.cons_append, List.takeWhile, hc]
     rw [ih (fun x hx => ha x (by simp [hx]))]
 
-/-- `(?P<cdata>.+)\]\]>`: the data is everything up to the last `]]>` of the line; with no further `]]>` on
-    the line that is the first one -/
+/-- no occurrence of `]]>` straddles the end of data that itself contains none -/
+theorem isPrefixOf_close_append (x L : Str) (hne : x ≠ []) (h : cdataClose.isPrefixOf x = false) :
+    cdataClose.isPrefixOf (x ++ (cdataClose ++ L)) = false := by
+  match x, hne, h with
+  | [a], _, _ => simp [cdataClose, List.isPrefixOf]
+  | [a, b], _, _ => simp [cdataClose, List.isPrefixOf]
+  | a :: b :: c :: r, _, h =>
+    simp only [cdataClose, List.cons_append, List.isPrefixOf] at h ⊢
+    simpa using h
+
+theorem findFirstClose_run (d L : Str) (h : containsSub cdataClose d = false) :
+    findFirstClose (d ++ (cdataClose ++ L)) = some d.length := by
+  induction d with
+  | nil => simp [findFirstClose, cdataClose, List.isPrefixOf]
+  | cons c cs ih =>
+    simp only [containsSub, Bool.or_eq_false_iff] at h
+    have hp := isPrefixOf_close_append (c :: cs) L (by simp) h.1
+    simp only [List.cons_append] at hp ⊢
+    simp only [findFirstClose, hp, Bool.false_eq_true, if_false, ih h.2, List.length_cons]
+
+theorem containsSub_tail (sub : Str) (c : Char) (cs : Str) (h : containsSub sub (c :: cs) = false) :
+    containsSub sub cs = false := by
+  simp only [containsSub, Bool.or_eq_false_iff] at h
+  exact h.2
+
+/-- `(?P<cdata>.+?)\]\]>`: data free of `]]>` and of line breaks is read back exactly, whatever follows -/
 theorem scanCdata_run (d post : Str) (hd : d ≠ []) (hnl : ∀ c ∈ d, notNl c = true)
-    (hg : lineHasClose post = false) :
+    (hcl : containsSub cdataClose d = false) :
     scanCdata (d ++ (cdataClose ++ post)) = some (d, post) := by
   cases d with
   | nil => exact absurd rfl hd
   | cons c0 d' =>
-    have hL : findLastClose (post.takeWhile notNl) = none := (findLastClose_none_iff _).mpr hg
     have hline : ((c0 :: d') ++ (cdataClose ++ post)).takeWhile notNl
         = c0 :: (d' ++ (cdataClose ++ post.takeWhile notNl)) := by
       rw [takeWhile_append_all notNl _ _ hnl, takeWhile_append_all notNl cdataClose post (by decide)]
       rfl
-    have hf : findLastClose (d' ++ (cdataClose ++ post.takeWhile notNl)) = some (0 + d'.length) :=
-      findLastClose_append _ _ _ (findLastClose_close _ hL)
+    have hf : findFirstClose (d' ++ (cdataClose ++ post.takeWhile notNl)) = some d'.length :=
+      findFirstClose_run d' _ (containsSub_tail _ c0 d' hcl)
     unfold scanCdata
     rw [hline]
     simp only [hf]
-    have e1 : ((c0 :: d') ++ (cdataClose ++ post)).take (0 + d'.length + 1) = c0 :: d' := by
+    have e1 : ((c0 :: d') ++ (cdataClose ++ post)).take (d'.length + 1) = c0 :: d' := by
       apply List.take_left'; simp
-    have e2 : ((c0 :: d') ++ (cdataClose ++ post)).drop (0 + d'.length + 4) = post := by
+    have e2 : ((c0 :: d') ++ (cdataClose ++ post)).drop (d'.length + 4) = post := by
       have : (c0 :: d') ++ (cdataClose ++ post) = ((c0 :: d') ++ cdataClose) ++ post := by simp
       rw [this]; apply List.drop_left'; simp [cdataClose]
     rw [e1, e2]
 
 theorem scanBody_cdata (d post : Str) (hd : d ≠ []) (hnl : ∀ c ∈ d, notNl c = true)
-    (hg : lineHasClose post = false) :
+    (hg : containsSub cdataClose d = false) :
     scanBody (cdataOf d ++ post) = (some d, none, post) := by
   have e : cdataOf d ++ post = cdataOpen ++ (d ++ (cdataClose ++ post)) := by simp [cdataOf]
   rw [e]
@@ -261,7 +259,7 @@ theorem scanBody_cdata (d post : Str) (hd : d ≠ []) (hnl : ∀ c ∈ d, notNl 
 /-- `<t><![CDATA[d]]>` w, not followed by the matching end tag -/
 theorem matchHere_cdata_open (tg d w rest : Str) (htg : tg ≠ []) (htc : ∀ c ∈ tg, isTagChar c = true)
     (hd : d ≠ []) (hnl : ∀ c ∈ d, notNl c = true) (hw : ∀ c ∈ w, notLt c = true) (hrest : Stops notLt rest)
-    (hg : lineHasClose (w ++ rest) = false)
+    (hg : containsSub cdataClose d = false)
     (hcl : dropPrefix (endTag tg) (w ++ rest) = none) :
     matchHere (startTag tg ++ (cdataOf d ++ (w ++ rest))) =
       some { tag := tg, cdata := some d, text := none, closetag := none, tail := optStr w,
@@ -273,31 +271,13 @@ theorem matchHere_cdata_open (tg d w rest : Str) (htg : tg ≠ []) (htc : ∀ c 
 /-- `<t><![CDATA[d]]></t>` w -/
 theorem matchHere_cdata_closed (tg d w rest : Str) (htg : tg ≠ []) (htc : ∀ c ∈ tg, isTagChar c = true)
     (hd : d ≠ []) (hnl : ∀ c ∈ d, notNl c = true) (hw : ∀ c ∈ w, notLt c = true) (hrest : Stops notLt rest)
-    (hg : lineHasClose (endTag tg ++ (w ++ rest)) = false) :
+    (hg : containsSub cdataClose d = false) :
     matchHere (startTag tg ++ (cdataOf d ++ (endTag tg ++ (w ++ rest)))) =
       some { tag := tg, cdata := some d, text := none, closetag := some tg, tail := optStr w,
              len := (startTag tg ++ (cdataOf d ++ (endTag tg ++ w))).length } := by
   rw [matchHere_tag tg _ htg htc, scanBody_cdata d _ hd hnl hg]
   simp only [scanClose_some, scanTail_run w rest hw hrest, optLen_optStr]
   simp [startTag, endTag, cdataOf, cdataOpen, cdataClose]; omega
-
-/-! ### guard G1 -/
-
-theorem cdSafe_append_right (a b : Str) (h : cdSafe (a ++ b) = true) : cdSafe b = true := by
-  induction a with
-  | nil => simpa using h
-  | cons c cs ih =>
-    simp only [List.cons_append, cdSafe, Bool.and_eq_true] at h
-    exact ih h.2
-
-theorem cdSafe_close (post : Str) (h : cdSafe (cdataClose ++ post) = true) : lineHasClose post = false := by
-  simp only [cdataClose, List.cons_append, List.nil_append, cdSafe, Bool.and_eq_true] at h
-  have := h.1
-  simpa [List.isPrefixOf] using this
-
-theorem cdSafe_after (pre post : Str) (h : cdSafe (pre ++ (cdataClose ++ post)) = true) :
-    lineHasClose post = false :=
-  cdSafe_close post (cdSafe_append_right pre _ h)
 
 /-! ### `lex` (offsets) and `toks` are the same scan -/
 
@@ -315,4 +295,75 @@ theorem lexGo_toksGo (skip pos : Nat) (s : Str) : (lexGo skip pos s).map Prod.sn
       | some m => simp only [List.map_cons]; rw [ih]
 
 theorem lex_toks (s : Str) : (lex s).map Prod.snd = toks s := lexGo_toksGo 0 0 s
+/-! ### every regex match is well formed (the two `assert`s of `feed`/`_feedmatch` never fire) -/
+
+/-- tag non-empty; `closetag` absent or equal to the tag; CDATA non-empty and never together with text -/
+def WfMatch (m : Match) : Prop :=
+  m.tag ≠ [] ∧ (m.closetag = none ∨ m.closetag = some m.tag) ∧
+  ((m.cdata = none) ∨ (m.text = none ∧ ∃ c cs, m.cdata = some (c :: cs)))
+
+theorem scanCdata_ne (r d r' : Str) (h : scanCdata r = some (d, r')) : ∃ c cs, d = c :: cs := by
+  unfold scanCdata at h
+  split at h
+  · cases h
+  · rename_i c0 l hl
+    split at h
+    · cases h
+    · rename_i i hi
+      injection h with h; injection h with h1 h2
+      cases r with
+      | nil => simp at hl
+      | cons a as => exact ⟨a, as.take i, by rw [← h1]; simp⟩
+
+theorem scanBody_wf (r : Str) :
+    (scanBody r).1 = none ∨ ((scanBody r).2.1 = none ∧ ∃ c cs, (scanBody r).1 = some (c :: cs)) := by
+  unfold scanBody
+  split
+  · rename_i cd r' h
+    refine Or.inr ⟨rfl, ?_⟩
+    cases hd : dropPrefix cdataOpen r with
+    | none => rw [hd] at h; cases h
+    | some r2 =>
+      rw [hd] at h
+      obtain ⟨c, cs, rfl⟩ := scanCdata_ne r2 cd r' h
+      exact ⟨c, cs, rfl⟩
+  · exact Or.inl rfl
+
+theorem scanClose_wf (tg r : Str) : (scanClose tg r).1 = none ∨ (scanClose tg r).1 = some tg := by
+  unfold scanClose
+  split
+  · exact Or.inr rfl
+  · exact Or.inl rfl
+
+theorem matchHere_wf (s : Str) (m : Match) (h : matchHere s = some m) : WfMatch m := by
+  unfold matchHere at h
+  split at h
+  · rename_i r
+    split at h
+    · rename_i t ts r2 h1 h2
+      injection h with h
+      subst h
+      exact ⟨by simp, scanClose_wf _ _, scanBody_wf r2⟩
+    · cases h
+  · cases h
+
+theorem toksGo_wf (skip : Nat) (s : Str) : ∀ m ∈ toksGo skip s, WfMatch m := by
+  induction s generalizing skip with
+  | nil => intro m hm; cases skip <;> simp [toksGo] at hm
+  | cons c cs ih =>
+    cases skip with
+    | succ k => intro m hm; simp only [toksGo] at hm; exact ih k m hm
+    | zero =>
+      intro m hm
+      simp only [toksGo] at hm
+      cases hmh : matchHere (c :: cs) with
+      | none => rw [hmh] at hm; exact ih 0 m hm
+      | some m0 =>
+        rw [hmh] at hm
+        rcases List.mem_cons.mp hm with rfl | h
+        · exact matchHere_wf _ _ hmh
+        · exact ih _ m h
+
+theorem toks_wf (s : Str) : ∀ m ∈ toks s, WfMatch m := toksGo_wf 0 s
+
 end Ofx.Lexer
